@@ -1,3 +1,4 @@
 import NasdaqModel.Driver.Loop
 import NasdaqModel.Driver.Session
-def main : IO Unit := NasdaqModel.Driver.mainLoop [NasdaqModel.Driver.SessD.handle]
+import NasdaqModel.Driver.AppSession
+def main : IO Unit := NasdaqModel.Driver.mainLoop [NasdaqModel.Driver.SessD.handle, NasdaqModel.Driver.AppD.handle]
